@@ -1,7 +1,7 @@
 use super::Error;
 use anyhow::Result;
 use futures::{stream::FuturesUnordered, StreamExt};
-use indexmap::IndexMap;
+use indexmap::{IndexMap, IndexSet};
 use miette::SourceSpan;
 use semver::{Version, VersionReq};
 use std::{fs, path::Path, sync::Arc};
@@ -68,7 +68,8 @@ impl RegistryPackageResolver {
         &self,
         keys: &IndexMap<BorrowedPackageKey<'a>, SourceSpan>,
     ) -> Result<IndexMap<BorrowedPackageKey<'a>, Vec<u8>>, Error> {
-        // parses into `PackageName` and maps back to `SourceSpan`
+        // parses into `PackageName` and maps back to `SourceSpan`; one entry per
+        // requested key, in request order (several keys may share a package name)
         let package_names_with_source_span = keys
             .iter()
             .map(|(key, span)| {
@@ -82,7 +83,7 @@ impl RegistryPackageResolver {
                     (key.version.cloned(), *span),
                 ))
             })
-            .collect::<Result<IndexMap<PackageName, (Option<Version>, SourceSpan)>, Error>>()?;
+            .collect::<Result<Vec<(PackageName, (Option<Version>, SourceSpan))>, Error>>()?;
 
         // fetch required package logs and return error if any not found
         if let Some(bar) = self.bar.as_ref() {
@@ -91,14 +92,23 @@ impl RegistryPackageResolver {
 
         match self
             .client
-            .fetch_packages(package_names_with_source_span.keys())
+            .fetch_packages(
+                package_names_with_source_span
+                    .iter()
+                    .map(|(name, _)| name)
+                    .collect::<IndexSet<_>>(),
+            )
             .await
         {
             Ok(_) => {}
             Err(ClientError::PackageDoesNotExist { name, .. }) => {
                 return Err(Error::PackageDoesNotExist {
                     name: name.to_string(),
-                    span: package_names_with_source_span.get(&name).unwrap().1,
+                    span: package_names_with_source_span
+                        .iter()
+                        .find(|(n, _)| *n == name)
+                        .map(|(_, (_, span))| *span)
+                        .unwrap(),
                 });
             }
             Err(err) => {
